@@ -55,32 +55,6 @@ func mockName(iface string) string {
 	return "mock" + iface
 }
 
-// TypeArgs returns admissible type-argument tuples for a generic interface (nil for a
-// non-generic one).
-func TypeArgs(it *progen.Iface, n int) [][]progen.Ty {
-	if len(it.TParams) == 0 {
-		return [][]progen.Ty{nil}
-	}
-	var out [][]progen.Ty
-	for variant := 0; variant < n; variant++ {
-		var tuple []progen.Ty
-		for i, tp := range it.TParams {
-			c := progen.FindConstraint(tp.Constraint)
-			switch {
-			case c.Key == "dep-slice":
-				prev := tuple[i-1]
-				tuple = append(tuple, progen.Ty{K: "slice", Elem: &prev})
-			case c.Key == "dep-generic":
-				prev := tuple[i-1]
-				tuple = append(tuple, progen.Ty{K: "named", Pkg: "alpha", Name: "GI", Args: []progen.Ty{prev}})
-			default:
-				tuple = append(tuple, c.Args[(variant+i)%len(c.Args)])
-			}
-		}
-		out = append(out, tuple)
-	}
-	return out
-}
 
 // Glue renders the glue file and returns it with the helper-package files it needs.
 // The rendering must use the "separate" placement (mocks in their own non-test packages).
@@ -139,7 +113,7 @@ func Glue(m *progen.Module, r progen.Rendering, style string) (string, map[strin
 					usedHelpers[k] = true
 				}
 			}
-			for _, tuple := range TypeArgs(it, 2) {
+			for _, tuple := range progen.TypeArgs(it, 2) {
 				inst := ""
 				if len(tuple) > 0 {
 					parts := make([]string, len(tuple))
